@@ -63,7 +63,7 @@ def scenarios(cases):
         if c.get("slow_init"):
             sc["init_ctl"] = {"sleep_us": 3000, "yield": 2}
         if c.get("exec"):
-            script += [P.DO("input", bytes=[107]), P.DO("sleep", us=3000), P.W("idle"), P.DO("go-send", msg=P.B("exec")), P.DO("sleep", us=1000)]
+            script += [P.DO("input", bytes=[107]), P.DO("sleep", us=3000), P.W("idle"), P.DO("go-send", msg=P.B("exec", cb=(len(c["senders"]) <= 7))), P.DO("sleep", us=1000)]   # (the callback's message is u:9000: no sender may own that tag)
         if c["mode"] == "complete":
             script += [P.DO("start-senders"), P.DO("wait-senders"), P.DO("sleep", us=2000), P.W("idle"), P.DO("quit"), P.W("returned")]
         elif c["mode"] == "quit-midway":
@@ -111,6 +111,8 @@ def analyse(c, r):
     if r["run_returned"] and r["final_ver"] != ver:
         probs.append(("threading", "Run returned model %d, the last Update returned %d" % (r["final_ver"], ver)))
     upd_tags = [int(e["key"][2:]) for e in evs if e["ev"] == "UpdateBegin" and e.get("key", "").startswith("u:") and int(e["key"][2:]) >= 1000]
+    if c.get("exec") and len(c["senders"]) <= 7:
+        upd_tags = [t for t in upd_tags if t != 9000]        # the message of the Exec callback (sent by the program itself, not by a sender)
     return probs, upd_tags
 
 
